@@ -35,6 +35,11 @@ pub enum Prog {
     Fanout,
     /// a: S1 = E ; b: S2 = S1.window(2).aggregate(..)   (stateful consumer)
     Chain2Window,
+    /// a: T1 = E (terminal, declared first) and S1 = E ; b: S2 = S1 — one context hosts two streams fed
+    /// by the same input whose outputs have different cross-context routes (added after seeded change C26)
+    SharedCtx,
+    /// a: S1 = E and T1 = E ; b: S2 = S1 ; c: T2 = T1
+    SharedCtxFan,
 }
 
 impl Prog {
@@ -44,6 +49,8 @@ impl Prog {
             Prog::Chain3 => "chain3",
             Prog::Fanout => "fanout",
             Prog::Chain2Window => "chain2_window",
+            Prog::SharedCtx => "shared_ctx",
+            Prog::SharedCtxFan => "shared_ctx_fan",
         }
     }
     pub fn from_name(s: &str) -> Prog {
@@ -52,13 +59,15 @@ impl Prog {
             "chain3" => Prog::Chain3,
             "fanout" => Prog::Fanout,
             "chain2_window" => Prog::Chain2Window,
+            "shared_ctx" => Prog::SharedCtx,
+            "shared_ctx_fan" => Prog::SharedCtxFan,
             _ => mc::machinery_error(&format!("unknown program {s}")),
         }
     }
     pub fn contexts(self) -> &'static [&'static str] {
         match self {
-            Prog::Chain2 | Prog::Chain2Window => &["a", "b"],
-            Prog::Chain3 | Prog::Fanout => &["a", "b", "c"],
+            Prog::Chain2 | Prog::Chain2Window | Prog::SharedCtx => &["a", "b"],
+            Prog::Chain3 | Prog::Fanout | Prog::SharedCtxFan => &["a", "b", "c"],
         }
     }
     /// streams with the context each runs in and its upstream
@@ -67,6 +76,8 @@ impl Prog {
             Prog::Chain2 | Prog::Chain2Window => &[("S1", "a", "E"), ("S2", "b", "S1")],
             Prog::Chain3 => &[("S1", "a", "E"), ("S2", "b", "S1"), ("S3", "c", "S2")],
             Prog::Fanout => &[("S1", "a", "E"), ("S2", "b", "S1"), ("S3", "c", "S1")],
+            Prog::SharedCtx => &[("T1", "a", "E"), ("S1", "a", "E"), ("S2", "b", "S1")],
+            Prog::SharedCtxFan => &[("S1", "a", "E"), ("T1", "a", "E"), ("S2", "b", "S1"), ("T2", "c", "T1")],
         }
     }
     pub fn source(self, with_contexts: bool) -> String {
@@ -78,8 +89,17 @@ impl Prog {
             s.push('\n');
         }
         let ctx = |c: &str| if with_contexts { format!("    .context({c})\n") } else { String::new() };
+        if self == Prog::SharedCtx {
+            s.push_str(&format!("stream T1 = E\n{}    .where(v > 0)\n    .emit(idt: id)\n\n", ctx("a")));
+        }
         s.push_str(&format!("stream S1 = E\n{}    .where(v > 0)\n    .emit(id: id, v: v)\n\n", ctx("a")));
         match self {
+            Prog::SharedCtx => s.push_str(&format!("stream S2 = S1\n{}    .where(v > 0)\n    .emit(id2: id)\n", ctx("b"))),
+            Prog::SharedCtxFan => {
+                s.push_str(&format!("stream T1 = E\n{}    .where(v > 0)\n    .emit(id: id, v: v)\n\n", ctx("a")));
+                s.push_str(&format!("stream S2 = S1\n{}    .where(v > 0)\n    .emit(id2: id)\n\n", ctx("b")));
+                s.push_str(&format!("stream T2 = T1\n{}    .where(v > 0)\n    .emit(idt2: id)\n", ctx("c")));
+            }
             Prog::Chain2 => s.push_str(&format!("stream S2 = S1\n{}    .where(v > 0)\n    .emit(id2: id)\n", ctx("b"))),
             Prog::Chain2Window => s.push_str(&format!("stream S2 = S1\n{}    .window(2)\n    .aggregate(c: count(), s: sum(id))\n    .emit(c: c, s: s)\n", ctx("b"))),
             Prog::Chain3 => {
